@@ -108,12 +108,7 @@ def key_for(p, kind, backend=None):
     return "oracle:expectation:%s:%s:%s" % (fam, case, backend)
 
 
-def content_tag(programs):
-    h = hashlib.sha256()
-    for p in programs:
-        h.update(p.name.encode())
-        h.update(p.dora.encode())
-    return h.hexdigest()[:8]
+content_tag = K.content_tag
 
 
 def run(ctx):
@@ -185,7 +180,7 @@ def run(ctx):
     # (1) generated programs (shared cache with C01)
     n = K.QUICK_N if ctx.tier == "quick" else 3000
     programs = [G.gen_program(ctx.seed, i) for i in range(n)]
-    gdir = K.cache_dir(tc, ctx.seed)
+    gdir = K.cache_dir(tc, ctx.seed, content_tag(programs))
     results = K.build_results(tc, programs, gdir)
     for p, res in zip(programs, results):
         p.family, p.case = "generated", p.name
